@@ -67,13 +67,17 @@ func call(op string, en *entry) string {
 			} else {
 				s, ps, err = lucene.ToParameterizedPostgres(en.q)
 			}
-			return fmt.Sprintf("%q %s %v", s, impl.CanonParams(ps), err != nil)
+			out := fmt.Sprintf("%q %s %v", s, impl.CanonParams(ps), err != nil)
+			scribble(ps)
+			return out
 		case "Render":
 			s, err := pg.Render(en.e)
 			return fmt.Sprintf("%q %v", s, err != nil)
 		case "RenderParam":
 			s, ps, err := pg.RenderParam(en.e)
-			return fmt.Sprintf("%q %s %v", s, impl.CanonParams(ps), err != nil)
+			out := fmt.Sprintf("%q %s %v", s, impl.CanonParams(ps), err != nil)
+			scribble(ps)
+			return out
 		case "String":
 			return en.e.String()
 		case "GoString":
@@ -220,6 +224,15 @@ func handBuilt() []*expr.Expression {
 		expr.BOOST(expr.Eq(col("a"), "b"), 2.5), expr.FUZZY(expr.Eq(col("a"), "b"), 2), expr.MUST(expr.Lit("x")), expr.MUSTNOT(expr.Lit("y")),
 		{Left: "raw", Op: expr.Literal}, {Left: col("a"), Op: expr.Equals, Right: "rawright"},
 	}
+}
+
+// scribble overwrites a returned parameter slice (and appends to it): a caller owns what it was given, so this must not
+// change any later result
+func scribble(ps []any) {
+	for i := range ps {
+		ps[i] = "scribbled"
+	}
+	_ = append(ps, "extra")
 }
 
 func jsonExpr(doc string) *expr.Expression {
